@@ -2,10 +2,30 @@
 import desper
 
 # bits of the "ev" shape of a class
-EV_ADD, EV_REMOVE, EV_RENAMED, EV_PROBE, EV_FALSY = 1, 2, 4, 8, 16
+EV_ADD, EV_REMOVE, EV_RENAMED, EV_PROBE, EV_FALSY, EV_EQ, EV_UNHASH = 1, 2, 4, 8, 16, 32, 64
 
 
-class RecBase:
+class EqByMode:
+    """Objects with optional value semantics (think of (frozen) dataclass components): with _eqmode 1 every such
+    object equals every other one and they share one hash, with _eqmode 2 they are equal and unhashable.
+    Equal-but-distinct objects are distinct components / handlers / processors / handles all the same."""
+    _eqmode = 0
+
+    def __eq__(self, other):
+        if self._eqmode and getattr(other, '_eqmode', 0):
+            return True
+        return self is other
+
+    def __ne__(self, other):
+        return not self.__eq__(other)
+
+    def __hash__(self):
+        if self._eqmode == 2:
+            raise TypeError('unhashable object (defines __eq__ without __hash__)')
+        return 11 if self._eqmode else object.__hash__(self)
+
+
+class RecBase(EqByMode):
     """Root of every generated component class: all callbacks exist, the decorator decides which are mapped.
 
     Callbacks append (kind, receiver, args) to the log of the run that created the instance."""
@@ -67,6 +87,10 @@ def build_dag(spec, root=RecBase, prefix='K', decorate=True, namespace=None):
                 keep = keep[:-1]
         if c.get('ev', 0) & EV_FALSY:
             cls._falsy = True
+        if c.get('ev', 0) & EV_UNHASH:
+            cls._eqmode = 2
+        elif c.get('ev', 0) & EV_EQ:
+            cls._eqmode = 1
         if decorate:
             ev = c.get('ev', 0)
             names, maps = [], {}
